@@ -143,6 +143,7 @@ class ETr:
     ext      : {python expression text (ast.unparse): (lean parameter name, type)}  external quantities
     draw     : (python expression text, lean parameter name) of the random draw, or None
     keys     : names of locals that denote *the class in hand* (index of per-class dict fields)
+    key_exprs: python expression texts; `k = <such an expression>` makes the local `k` such a name
     methods  : {python method name on self: lean function name} (translated methods callable as statements)
     effects  : [Effect]
     ignore_calls : python call heads that are ignored as statements (`print`, `self.dprint`)
@@ -150,13 +151,14 @@ class ETr:
     """
 
     def __init__(self, schema, params=None, ext=None, draw=None, keys=(), methods=None, effects=(), loops=(),
-                 ignore_calls=('print', 'self.dprint')):
+                 ignore_calls=('print', 'self.dprint'), key_exprs=()):
         self.schema = schema
         self.scope = dict(params or {})          # local/param name -> type
         self.ext = dict(ext or {})
         self.draw = draw
         self.drawn = False
         self.keys = set(keys)
+        self.key_exprs = set(key_exprs)       # `k = <one of these>` declares the local k to be the class in hand
         self.methods = dict(methods or {})
         self.effects = list(effects)
         self.loops = list(loops)
@@ -175,10 +177,10 @@ class ETr:
 
     # -- bookkeeping of path-local facts
     def save(self):
-        return dict(self.scope), dict(self.narrow), self.drawn
+        return dict(self.scope), dict(self.narrow), self.drawn, set(self.keys)
 
     def restore(self, st):
-        self.scope, self.narrow, self.drawn = dict(st[0]), dict(st[1]), st[2]
+        self.scope, self.narrow, self.drawn, self.keys = dict(st[0]), dict(st[1]), st[2], set(st[3])
 
     # -- literals
     def const(self, node, v):
@@ -463,6 +465,20 @@ class ETr:
         fail(st, 'statement outside the subset')
 
     def assign(self, st, rest):
+        if isinstance(st, (ast.Assign, ast.AnnAssign)) and st.value is not None:
+            t0 = st.targets[0] if isinstance(st, ast.Assign) and len(st.targets) == 1 else getattr(st, 'target', None)
+            if isinstance(t0, ast.Name):
+                vt = ast.unparse(st.value)
+                if vt in self.key_exprs:
+                    # `class_id = self.flow2class(packet.flow_id)`: from here on `class_id` is the class in hand
+                    if t0.id in self.scope:
+                        fail(st, f'{t0.id} is already a local')
+                    self.keys.add(t0.id)
+                    return self.block(rest)
+                if vt in self.ext and self.ext[vt][0] == t0.id:
+                    # `now = self.env.now`: the local is the external quantity of the same name
+                    self.scope[t0.id] = self.ext[vt][1]
+                    return self.block(rest)
         if isinstance(st, ast.Assign):
             if len(st.targets) != 1:
                 fail(st, 'multiple assignment targets')
